@@ -13,7 +13,56 @@ let rec int_of_nat = function O -> 0 | S n -> 1 + int_of_nat n
 let nats l = String.concat "," (List.map (fun n -> string_of_int (int_of_nat n)) l)
 let rec take n l = if n = 0 then [] else match l with [] -> [] | x :: t -> x :: take (n - 1) t
 let rec drop n l = if n = 0 then l else match l with [] -> [] | _ :: t -> drop (n - 1) t
+(* HISTORY line:  H <P> <ppn_sim> <noncontig> <nops> {<kind> <c> <ppn>}*   (kinds as in tools/harness/c14_harness.c)
+   prints, joined by " | ", for every operation k:  live=<node communicators alive (h_live)> c0=<...> c1=<...> spec0=<..> spec1=<..>
+   where c<i> = `-` (no such communicator) or, for every rank joined by ",", <grid|none>:<grants of flavours 0..3> from the division the
+   life cycle hstep has attached to communicator i, and spec<i> = the division the id-free specification in_force gives (ppn, `none`).
+   An attach with ppn 0 attaches iff the node classes of the simulator have equal sizes (attach_split_type). *)
+let history ws =
+  match ws with
+  | p :: ppn :: nonc :: nops :: rest ->
+    let p = int_of_string p and ppn = int_of_string ppn and nonc = int_of_string nonc and nops = int_of_string nops in
+    let np = nat_of_int p in
+    let nd (r : nat) : nat =
+      let r = int_of_nat r in
+      nat_of_int (if ppn <= 0 then 0 else if nonc <> 0 then r mod ((p + ppn - 1) / ppn) else r / ppn) in
+    let comms_of (d : int option) (r : nat) : node_comms option =
+      match d with None -> None | Some pa -> if pa > 0 then Some (attach_explicit np (nat_of_int pa) r) else attach_split_type np nd r in
+    let rec ops n l = if n = 0 then [] else match l with
+      | k :: c :: pa :: t ->
+        let c = nat_of_int (int_of_string c) and pa = int_of_string pa in
+        (match int_of_string k with
+         | 0 -> HAttach (c, (if pa > 0 || attach_split_type np nd O <> None then Some pa else None))
+         | 1 -> HDetach c | 2 -> HDup | _ -> HFreeDup) :: ops (n - 1) t
+      | _ -> failwith "history" in
+    let h = ops nops rest in
+    let show st (c : nat) exists_ =
+      if not exists_ then "-" else
+      let d = h_division st c in
+      String.concat "," (List.init p (fun r ->
+        let nr = nat_of_int r in
+        let cm = comms_of d in
+        let g = (match cm nr with
+                 | None -> "none"
+                 | Some nc -> let (((a, b), c), e) = grid_position nc nr in
+                   Printf.sprintf "%d/%d/%d/%d" (int_of_nat a) (int_of_nat b) (int_of_nat c) (int_of_nat e)) in
+        let w f = if write_start cm f nr then "1" else "0" in
+        g ^ ":" ^ w Basic ^ w Prescan ^ w Window ^ w WindowPrescan)) in
+    let spec pre c = (match in_force pre c with Some pa -> string_of_int pa | None -> "none") in
+    let rec go st pre = function
+      | [] -> []
+      | o :: t ->
+        (match hstep st o with
+         | None -> ["REJECTED"]
+         | Some st' ->
+           let pre' = pre @ [o] in
+           Printf.sprintf "live=%d c0=%s c1=%s spec0=%s spec1=%s" (List.length st'.h_live) (show st' O true) (show st' (S O) st'.h_dup)
+             (spec pre' O) (spec pre' (S O)) :: go st' pre' t) in
+    print_endline (String.concat " | " (go hinit [] h))
+  | _ -> print_endline "BAD_PARAMS"
+
 let () = iter_lines (fun line ->
+  if String.length line > 0 && line.[0] = 'H' then history (List.tl (words line)) else
   match (match words line with [a; b; c; d; e; f; g; h] -> [a; b; c; d; e; f; g; h; "0"; "0"; "1"; "0"; "1"; "-"]
          | [a; b; c; d; e; f; g; h; i] -> [a; b; c; d; e; f; g; h; i; "0"; "1"; "0"; "1"; "-"] | w -> w) with
   | [p; pa; ppn; nonc; fl; d; cnt; contribs; dup; scount; ssize; rcount; rsize; bytes] ->
